@@ -802,7 +802,7 @@ func init() {
 			if tier == "thorough" {
 				return 1500000
 			}
-			return 80000
+			return 240000
 		},
 		Run: c09Run,
 		Rule: "random nestings (depth <= 4) of if/elif/else, ifequal, ifnotequal, firstof, for (+empty, reversed, sorted, key/value over maps with sorted), forloop.Counter/Counter0/Revcounter/Revcounter0/First/Last and Parentloop chains, cycle (plain, as name, as name silent, {% cycle name %}), ifchanged (content form and watched values, with else) over lists, strings (multi-byte), maps, nil, empty and non-iterable values; " +
